@@ -9,6 +9,7 @@ import (
 	"context"
 	"fmt"
 	"os"
+	"strings"
 	"sync"
 	"sync/atomic"
 	"testing"
@@ -27,6 +28,22 @@ type c11Pair struct {
 	Phase string
 }
 
+// c11Sloppy: ways of writing a key component that do NOT keep the separator
+// and the escape character apart (used to derive look-alike triples).
+var c11Sloppy = []struct {
+	name     string
+	enc, dec func(string) string
+}{
+	{"none", func(s string) string { return s }, func(s string) string { return s }},
+	{"comma-only", func(s string) string { return strings.ReplaceAll(s, ",", "\\,") }, func(s string) string { return strings.ReplaceAll(s, "\\,", ",") }},
+	{"backslash-only", func(s string) string { return strings.ReplaceAll(s, "\\", "\\\\") }, func(s string) string { return strings.ReplaceAll(s, "\\\\", "\\") }},
+	{"comma-then-backslash", func(s string) string {
+		return strings.ReplaceAll(strings.ReplaceAll(s, ",", "\\,"), "\\", "\\\\")
+	}, func(s string) string {
+		return strings.ReplaceAll(strings.ReplaceAll(s, "\\\\", "\\"), "\\,", ",")
+	}},
+}
+
 func c11GenPairs(rng *kit.RNG, n int) []c11Pair {
 	tok := func() string {
 		const al = "abcdefgh"
@@ -37,13 +54,36 @@ func c11GenPairs(rng *kit.RNG, n int) []c11Pair {
 		}
 		return string(b)
 	}
+	// decorations made of the key separator and its escape character, placed
+	// at token joints (class backslash-comma-decorations)
+	deco := []string{"", "", ",", "\\", "\\\\", "\\,", ",\\", ",,", "\\,\\"}
+	decorate := func(pre string) (string, string) {
+		// four letter tokens, three joints; one joint is the id|stream
+		// boundary, the others and the boundary's two sides get decorations
+		t := []string{tok(), tok(), tok(), tok()}
+		cut := rng.Range(1, 3)
+		id, st := pre+t[0], ""
+		for j := 1; j < 4; j++ {
+			d := deco[rng.Intn(len(deco))]
+			switch {
+			case j < cut:
+				id += d + t[j]
+			case j == cut:
+				id += []string{"", "", "\\", "\\\\", ",", "\\,"}[rng.Intn(6)]
+				st = []string{"", "", "\\", ",", "\\,", "\\\\"}[rng.Intn(6)] + t[j]
+			default:
+				st += d + t[j]
+			}
+		}
+		return id, st
+	}
 	var out []c11Pair
 	for i := 0; i < n; i++ {
 		pre := fmt.Sprintf("p%d", i) // keeps the pairs apart from each other
 		x, y, z := tok(), tok(), tok()
 		part := int32(rng.Intn(20))
 		var p c11Pair
-		switch i % 7 {
+		switch i % 11 {
 		case 0:
 			p = c11Pair{A: c11Key{pre + x, y, part}, B: c11Key{pre + x, y, part + 1 + int32(rng.Intn(3))}, Class: "partition-differs"}
 		case 1:
@@ -60,10 +100,67 @@ func c11GenPairs(rng *kit.RNG, n int) []c11Pair {
 			// cursor ids are opaque strings and stream names are not
 			// restricted either: a comma may appear in both
 			p = c11Pair{A: c11Key{pre + x + "," + y, z, part}, B: c11Key{pre + x, y + "," + z, part}, Class: "comma-in-id-vs-stream"}
+		case 7:
+			// ... and so may a backslash: a field that ENDS in the escape
+			// character, next to a field that holds the separator
+			bs := []string{"\\", "\\\\\\"}[rng.Intn(2)] // one or three: an odd run
+			p = c11Pair{A: c11Key{pre + x + bs, y + "," + z, part}, B: c11Key{pre + x + "," + y + bs, z, part}, Class: "backslash-before-separator"}
+		case 8:
+			// the escape character on either side of the id|stream boundary
+			bs := []string{"\\", "\\\\"}[rng.Intn(2)]
+			p = c11Pair{A: c11Key{pre + x + bs, y, part}, B: c11Key{pre + x, bs + y, part}, Class: "backslash-across-boundary"}
+		case 9:
+			// escaped-looking sequences written literally: "\\," inside one
+			// field vs the boundary after a trailing backslash, doubled
+			// backslashes vs single ones
+			switch rng.Intn(3) {
+			case 0:
+				p = c11Pair{A: c11Key{pre + x + "\\," + y, z, part}, B: c11Key{pre + x + "\\", y + "," + z, part}}
+			case 1:
+				p = c11Pair{A: c11Key{pre + x + "\\\\", y + "," + z, part}, B: c11Key{pre + x + "\\", "\\" + y + "," + z, part}}
+			default:
+				p = c11Pair{A: c11Key{pre + x, "\\" + y + "\\," + z, part}, B: c11Key{pre + x + ",\\" + y + "\\", z, part}}
+			}
+			p.Class = "backslash-literal-escape-sequences"
+		case 10:
+			// triple A with separators and escape characters sprinkled over it;
+			// B = what A's key reads as when it is written with a SLOPPY
+			// escaping (none / comma only / backslash only / comma first, then
+			// backslash) and split at another comma: a different triple that an
+			// injective key must keep apart
+			p.Class = "backslash-comma-reparsed"
+			for try := 0; try < 12 && p.B.ID == ""; try++ {
+				ai, as := decorate(pre)
+				g := c11Sloppy[rng.Intn(len(c11Sloppy))]
+				w := g.enc(ai) + "," + g.enc(as)
+				bound := len(g.enc(ai))
+				var cuts []int
+				for c := len(pre) + 1; c < len(w)-1; c++ {
+					if w[c] == ',' && c != bound {
+						cuts = append(cuts, c)
+					}
+				}
+				if len(cuts) == 0 {
+					continue
+				}
+				c := cuts[rng.Intn(len(cuts))]
+				bi, bs := g.dec(w[:c]), g.dec(w[c+1:])
+				if bi == "" || bs == "" || (bi == ai && bs == as) {
+					continue
+				}
+				p.A, p.B = c11Key{ai, as, part}, c11Key{bi, bs, part}
+			}
 		}
 		p.Phase = "keys-distinct"
 		if p.Class == "comma-in-id-vs-stream" {
 			p.Phase = "keys-comma"
+		}
+		if strings.HasPrefix(p.Class, "backslash") {
+			p.Phase = "keys-backslash"
+		}
+		if p.A == p.B || p.A.ID == "" || p.B.ID == "" || p.A.Stream == "" || p.B.Stream == "" {
+			// degenerate draw: fall back to the plainest class
+			p = c11Pair{A: c11Key{pre + x, y, part}, B: c11Key{pre + x, y, part + 1}, Class: "partition-differs", Phase: "keys-distinct"}
 		}
 		out = append(out, p)
 	}
@@ -76,7 +173,7 @@ func TestVerifC11Keys(t *testing.T) {
 	rep := kit.NewReport("C11", "keys")
 	defer rep.Write()
 	rep.SetRule("pairs of distinct (cursor id, stream, partition) triples that differ in exactly one component or only in where the component boundaries fall " +
-		"(7 classes, seeded tokens and partition ids), on a single-node server, cache on and cache off: fetch B (never set) -> set A -> fetch B -> set B -> fetch A (as is, and from the log after a cache purge) -> fetch B; " +
+		"(11 classes, seeded tokens and partition ids; ids and stream names are opaque strings, so the key separator ',' and its escape character '\\' are part of the alphabet: trailing / leading / doubled backslashes, a backslash before a comma, on either side of the id|stream boundary), on a single-node server, cache on and cache off: fetch B (never set) -> set A -> fetch B -> set B -> fetch A (as is, and from the log after a cache purge) -> fetch B; " +
 		"oracle = the same per-triple register rule; non-trivial = all six steps answered; distinct = class + cache mode + tokens")
 	root := kit.NewRNG(kit.Mix(kit.Seed(), 0xC11B))
 	for mode := 0; mode < 2; mode++ {
@@ -87,7 +184,7 @@ func TestVerifC11Keys(t *testing.T) {
 			continue
 		}
 		n := e.c.Nodes["a"]
-		pairs := c11GenPairs(root, kit.Scale(42, 210))
+		pairs := c11GenPairs(root, kit.Scale(66, 330))
 		for _, p := range pairs {
 			rep.Eval()
 			answered := 0
